@@ -156,10 +156,12 @@ Section NN.
       destruct (fold_left vm_transfer trs (s, a, b)) as [[s1 a1] b1] eqn:F.
       destruct (vm_fold_nn _ _ _ _ _ _ _ F Hs Na Nb) as (N1&N2&N3&J1&J2).
       match type of H with (if ?c then _ else _) = _ => destruct c end.
+      2:{ injection H as _ <- <- <- _. exact Base. }
+      match type of H with (if ?c then _ else _) = _ => destruct c end.
       + injection H as _ <- <- <- _. simpl. repeat split; auto; try congruence.
         destruct (a_deploy b1); auto.
         destruct (a_deploy b1); simpl; congruence.
-      + injection H as _ <- <- <- _. exact Base.
+      + destruct trs; injection H as _ <- <- <- _; exact Base.
     - destruct (cfee <? 0); injection H as _ <- <- <- _; exact Base.
     - injection H as _ <- <- <- _. exact Base.
   Qed.
